@@ -91,7 +91,17 @@ def run(ctx):
     # ---- R14.2 destruction only on the background blocking thread -------------------------------------
     sw = c.adt(SW)
     tfields = [f for f in sw['variants'][0]['fields'] if 'T' in f['parts']['params']]
-    okf = len(tfields) == 1 and tfields[0]['ty'] == 'std::sync::Arc<std::sync::Mutex<std::option::Option<T>>>'
+    SHARED_TY = 'std::sync::Arc<std::sync::Mutex<std::option::Option<T>>>'
+    def single_owner(ty, depth=0):
+        # the shared cell itself, or a private newtype of this crate whose only T-carrying field is one
+        if ty == SHARED_TY:
+            return True
+        a_ = c.adt(adt_of(ty) or '')
+        if a_ is None or depth > 2 or len(a_.get('variants', [])) != 1:
+            return False
+        tf = [f_ for f_ in a_['variants'][0]['fields'] if 'T' in f_['parts']['params']]
+        return len(tf) == 1 and single_owner(tf[0]['ty'], depth + 1)
+    okf = len(tfields) == 1 and single_owner(tfields[0]['ty'])
     ctx.ob('R14.2', 'the wrapped value has a single owner: Arc<Mutex<Option<T>>>', okf, '%s:%s' % (sw['file'], sw['line']), str([(f['name'], f['ty']) for f in tfields]), construct='syncwrapper:shape')
     bg = closure_args_of(prog, drop_b, [SPAWN_BG])
     ctx.ob('R14.2', 'Drop hands one closure to spawn_blocking_background', len(bg) == 1, ctx.where(drop_b), '%d closures' % len(bg), construct='drop:spawn-bg')
@@ -255,9 +265,11 @@ def run(ctx):
             ctx.undecide('R14.5', 'deadpool_runtime::Runtime::%s not extracted' % nm); continue
         ctx.saw(b)
         ban = prog.an(b)
-        tk = [blk for blk in b.blocks if blk.term.kind == 'call' and not blk.cleanup and 'tokio::task::spawn_blocking' in blk.term.callee_names()]
+        # tokio's blocking-pool entry points: the free function and the method on a runtime handle it is defined as
+        TOKIO_BLOCKING = {'tokio::task::spawn_blocking', 'tokio::runtime::Handle::spawn_blocking', 'tokio::runtime::Runtime::spawn_blocking'}
+        tk = [blk for blk in b.blocks if blk.term.kind == 'call' and not blk.cleanup and blk.term.callee_names() & TOKIO_BLOCKING]
         inv = user_fn_invocations(prog, b)
-        ok = len(tk) == 1 and not inv and any(s[0] in ('upvar', 'arg') and s[1].startswith('f') for s in sources(ban, tk[0].term.args[0]))
+        ok = len(tk) == 1 and not inv and any(s[0] in ('upvar', 'arg') and s[1].startswith('f') for a_ in tk[0].term.args for s in sources(ban, a_))
         ctx.ob('R14.5', 'Tokio1: %s passes the closure uninvoked to tokio::task::spawn_blocking' % nm, ok, ctx.where(b), '', construct='runtime:' + nm)
     if sb is not None and not no_tokio:
         maps = [cb for blk, cb in closure_args_of(prog, sb, ['std::result::Result::map_err'])]
@@ -265,7 +277,7 @@ def run(ctx):
         # the same mapping written as a match on the awaited JoinHandle: Err(e) => Err(Panic(e.into_panic()))
         san = prog.an(sb)
         in_err = set()
-        for sw_, okr, err in result_matches(san, lambda n: n == 'tokio::task::spawn_blocking'):
+        for sw_, okr, err in result_matches(san, lambda n: n in ('tokio::task::spawn_blocking', 'tokio::runtime::Handle::spawn_blocking', 'tokio::runtime::Runtime::spawn_blocking')):
             in_err |= err
         for blk in sb.blocks:
             if blk.cleanup:
